@@ -65,6 +65,9 @@ func (s *Script) requests(callID string) []chunk {
 		if i < len(s.Texts) && s.Texts[i] != "" {
 			c.Text = s.Texts[i]
 		}
+		if s.Unk != "" {
+			c.Unknown = unknownFields(s.Unk, i)
+		}
 		if i == 0 && !s.MetaPlan {
 			c.Script = s.planJSON()
 		}
@@ -371,6 +374,12 @@ func runWeb(ctx context.Context, hc *http.Client, base string, s *Script, callID
 		return t
 	}
 	req.Header.Set("Content-Type", "application/grpc-web+proto")
+	switch s.Deadline { // what a grpc-go client with the same deadline announces
+	case "":
+		req.Header.Set("Grpc-Timeout", fmt.Sprintf("%dS", int(timeoutOf(s)/time.Second)))
+	case "long":
+		req.Header.Set("Grpc-Timeout", "5M")
+	}
 	req.Header.Set("X-Grpc-Web", "1")
 	if s.Gzip {
 		req.Header.Set("Grpc-Encoding", "gzip")
